@@ -178,7 +178,7 @@ def tree_call(rng, ref, bases, force=None):
     dirs = path.split("/")[:-1]
     r = rng.random()
     if force == "match" or (force is None and r < 0.45):
-        n = len(dirs) if force == "match" else rng.randint(0, len(dirs))
+        n = rng.randint(1, len(dirs)) if (force == "match" and dirs) else rng.randint(0, len(dirs))
         base = "/".join(dirs[:n]) + rng.choice(["", "/", "//"])
         why = "tree:prefix"
     elif force == "shorter":
